@@ -2,6 +2,7 @@ package websocket
 
 import (
 	"context"
+	"net/http"
 	"net/url"
 	"strconv"
 
@@ -61,11 +62,24 @@ func (t *ClientTransport) Handshake() (hr *parser.HandshakeResponse, err error) 
 		t.url.Scheme = "ws"
 	}
 
+	// `t.dialOptions` belongs to the caller, and it is shared between the transports (and the connections)
+	// that are created from the same configuration. Work on a copy: don't write into it.
+	dialOptions := new(websocket.DialOptions)
+	if t.dialOptions != nil {
+		*dialOptions = *t.dialOptions
+	}
 	if t.requestHeader != nil {
-		t.dialOptions.HTTPHeader = t.requestHeader.Header()
+		header := dialOptions.HTTPHeader.Clone()
+		if header == nil {
+			header = make(http.Header)
+		}
+		for k, v := range t.requestHeader.Header() {
+			header[k] = v
+		}
+		dialOptions.HTTPHeader = header
 	}
 
-	t.conn, _, err = websocket.Dial(context.Background(), t.url.String(), t.dialOptions)
+	t.conn, _, err = websocket.Dial(context.Background(), t.url.String(), dialOptions)
 	if err != nil {
 		return
 	}
